@@ -174,14 +174,29 @@ def scenarios(root):
     cache_scn("cache-growing", (SP1, SP2, SP3), (SP1,))
     cache_scn("cache-shrinking", (SP1,), (SP1, SP2, SP3))
     cache_scn("cache-unchanged", (SP1, SP2), (SP1, SP2))
+    def cache_stray(name, torn):
+        """An earlier update_cache() died and left its temp file behind (complete or torn)."""
+        def setup(tpl):
+            _mk(tpl, jobs=(SP1, SP2, SP3), cache_of=(SP1,))
+            blob = gzip.compress(json.dumps({canon.job_id(SP2): SP2}).encode())
+            with open(os.path.join(tpl, CACHE + "~"), "wb") as f:
+                f.write(blob[: len(blob) // 2] if torn else blob)
+        base = S["cache-growing"]
+        S[name] = dict(base, setup=setup)
     big = tuple({"a": i, "pad": BIG[:2000 + i]} for i in range(12))
     cache_scn("cache-many-jobs-multi-buffer", big, big[:2])
+    cache_stray("cache-growing-after-crash-stray-complete", False)
+    cache_stray("cache-growing-after-crash-stray-torn", True)
     return S
 
 
 QUICK = ["jobdoc-absent-to-small", "jobdoc-small-to-big", "jobdoc-reset", "job-clear-fresh-handle", "projectdoc-update",
          "projectdoc-first-access-assignment", "buffered-flush-two-docs", "cache-first-write", "cache-growing", "cache-shrinking",
-         "cache-unchanged"]
+         "cache-unchanged", "cache-growing-after-crash-stray-complete", "cache-growing-after-crash-stray-torn"]
+# document scenarios that are also run with synced_collections' thread-lock mode switched off: there the library writes a
+# file atomically only if the collection was created with write_concern=True (which is what signac must ask for)
+NOLOCK = ["jobdoc-absent-to-small", "jobdoc-small-to-big", "jobdoc-reset", "job-clear-fresh-handle", "projectdoc-update",
+          "projectdoc-first-access-assignment", "buffered-flush-two-docs"]
 
 
 # ------------------------------------------------------------------ oracle
@@ -213,14 +228,23 @@ def judge(root, scn, pre_tree, what):
         d, b = os.path.dirname(r), os.path.basename(r)
         is_temp = any(os.path.dirname(t) == d and (fnmatch.fnmatch(b, "._*_" + os.path.basename(t)) or b == os.path.basename(t) + "~")
                       for t in tnames)
-        if is_temp and r in now:
-            continue
+        if is_temp:
+            continue  # a stray temp file may appear (crash) or be consumed (left by an earlier crash)
         out.append(("foreign-change", f"{what}: {r} changed from {pre.get(r)} to {now.get(r)}", {}))
     return out
 
 
+def _nolock(fn):
+    def body(ctx):
+        import signac
+        signac.JSONDict.disable_multithreading()
+        return fn(ctx)
+    return body
+
+
 def eval_item(item):
-    name, part = item
+    name, part = item[0], item[1]
+    cfg = item[2] if len(item) > 2 else "default"
     viol = []
     n = 0
     nt = set()
@@ -229,11 +253,13 @@ def eval_item(item):
         tpl = os.path.join(base, "tpl")
         scn = scenarios(root)[name]
         scn["setup"](tpl)
+        if cfg == "nolock":
+            scn = dict(scn, writer=_nolock(scn["writer"]), reader=_nolock(scn["reader"]))
 
         def bad(kind, msg, inp, **extra):
             if len(viol) < 6:
-                viol.append({"sig": dict(kind=kind, **extra), "scenario": name,
-                             "input": dict(scenario=name, part=part, **inp), "expected": "old or new content",
+                viol.append({"sig": dict(kind=kind, **extra), "scenario": name + ("/" + cfg if cfg != "default" else ""),
+                             "input": dict(scenario=name, part=part, config=cfg, **inp), "expected": "old or new content",
                              "observed": msg, "msg": msg})
         if part in ("crash", "fault"):
             trace, outcome, tree, pre_tree = C.record(tpl, root, scn["writer"])
@@ -307,7 +333,10 @@ def universe(tier):
     names = QUICK if tier == "quick" else sorted(scenarios("/nonexistent"))
     for name in names:
         for part in ("crash", "fault", "reader"):
-            yield (name, part)
+            yield (name, part, "default")
+    for name in NOLOCK:
+        for part in (("crash", "reader") if tier == "quick" else ("crash", "fault", "reader")):
+            yield (name, part, "nolock")
 
 
 def run(ctx):
@@ -325,7 +354,7 @@ def run(ctx):
     cov["states"] = sum(int(s.split(",")[1]) for s in map(str, tot.nt) if s.startswith("('interleave'"))
     cov["transitions"] = cov["evaluations"]
     cov["traces_validated_against_impl"] = cov["evaluations"]
-    cov["bounds"] = {"scenarios": len(items) // 3, "actors": 2, "preemption_bound": "none (exhaustive for 2 actors)",
+    cov["bounds"] = {"scenarios": len({i[0] for i in items}), "configurations": "default + thread-lock mode off for document scenarios", "actors": 2, "preemption_bound": "none (exhaustive for 2 actors)",
                      "torn_prefixes": "1, L/2, L-1"}
     report.assumptions += ["process-crash semantics: the page cache survives, crash states are prefixes of the call trace "
                            "(power-loss reordering is not modelled)",
@@ -338,4 +367,4 @@ def run(ctx):
 def replay(payload, ctx):
     C.ensure_preloaded()
     inp = payload["input"]
-    return eval_item((inp["scenario"], inp["part"]))["viol"]
+    return eval_item((inp["scenario"], inp["part"], inp.get("config", "default")))["viol"]
